@@ -277,7 +277,7 @@ func (e *Engine) SolveParamNil(scope []*ssa.Function) {
 							if _, done := e.paramMaybeNil[p]; done {
 								continue
 							}
-							if !a.isNonNil(s, arg) {
+							if !a.isNonNil(a.stateBefore(ins), arg) {
 								e.paramMaybeNil[p] = FuncShort(f)
 								changed = true
 							}
